@@ -216,14 +216,14 @@ func product(alpha []string, n int, f func([]string)) {
 
 func EnumConcat(thorough bool, f func(Case)) {
 	alphas := map[int][]string{
-		2: {"x", "1", `"s"`, "$1", "(1+1)", "(-1)", "u", "2.5", "$NF", "a[1]"},
-		3: {"x", "1", `"s"`, "$1", "(1+1)", "(-1)", "u", "2.5"},
-		4: {"x", `"s"`, "$1", "(-1)"},
-		5: {"x", `"s"`, "$2"},
+		2: {"x", "1", `"s"`, "$1", "(1+1)", "(-1)", "u", "2.5", "$NF", "a[1]", "3.14159", "1e6", "0.1234567"},
+		3: {"x", "1", `"s"`, "$1", "(1+1)", "(-1)", "u", "2.5", "3.14159"},
+		4: {"x", `"s"`, "$1", "(-1)", "3.14159"},
+		5: {"x", `"s"`, "$2", "3.14159"},
 	}
 	if thorough {
-		alphas[4] = []string{"x", `"s"`, "$1", "(-1)", "u", "2.5"}
-		alphas[5] = []string{"x", `"s"`, "$2", "1"}
+		alphas[4] = []string{"x", `"s"`, "$1", "(-1)", "u", "2.5", "3.14159"}
+		alphas[5] = []string{"x", `"s"`, "$2", "1", "3.14159"}
 	}
 	for n := 2; n <= 5; n++ {
 		product(alphas[n], n, func(ops []string) {
@@ -444,6 +444,10 @@ func EnumControl(thorough bool, f func(Case)) {
 var miscPrograms = []string{
 	`$1 > 1`, `/a/`, `!/a/`, `NR == 1, NR == 2`, `NR == 2, NR == 2 { print "r", $0 }`, `/1/, /5/ { print NR ":" $0 }`, `$1 == 3, 0`, `NR == 1, /nomatch/ { n++ } END { print n }`,
 	`BEGIN { print "b1" } BEGIN { print "b2" } END { print "e1" } END { print "e2" }`, `BEGIN { }`, `END { }`, `{ }`, `{}`, `END { print NR, $0, NF }`,
+	`NR == 1 { $2 = "x" } { print ($2 == 4.0), ($2 < 10), ($1 < 10), $2 + 0 }`, `NR == 1 { $1 = "z"; $3 = "q" } { print ($1 < 10), ($3 < 10), ($2 < 10), NF }`,
+	`{ $2 = "07"; print ($2 < 10) } END { print ($2 < 10), ($2 == 7) }`, `NR == 1 { $2 = "07" } NR == 1 { getline; print ($2 < 10), ($2 == 4), ($1 < 10) }`, `{ $1 = "x"; $0 = "10 9"; print ($1 < $2), ($1 < 9), ($2 < 10) }`,
+	`NR == 1 { $2 = "x"; $4 = "y" } NR == 2 { NF = 4; print ($2 < 10), ($4 == 0), ($4 == "") } NR == 3 { print ($1 < 10) }`, `NR == 1 { $1 = "10" } { if ($1 < 9) print "lt"; else print "ge"; while ($1 < 9) { print "loop"; break } }`,
+	`{ $3 = "x" } { n = split($0, parts); print (parts[1] < 10), (parts[2] < 10) } NR == 2 { print ($1 < 10), ($2 < 10), ($3 < 10) }`,
 	`{ { } }`, `{ ; }`, `$1 { { } { } }`, `NR == 1 { ; ; }`, `/a/ { if (0) ; }`, `{ { } } END { print NR }`,
 	`NR == 1 { print "one" } NR == 1 { print "again" } { print "all", NR }`,
 	`NR % 2`, `NF`, `$0`, `$2`, `"x"`, `""`, `0`, `1`, `u`, `$1 ~ "^[0-9]+$"`, `$1 ~ $2`, `x = NR`, `(NR == 2)`,
@@ -499,7 +503,7 @@ func EnumMisc(thorough bool, f func(Case)) {
 // ---- pairs of statements (thorough) ---------------------------------------------
 
 var pairStmts = []string{
-	"x = 1", "x += $1", "x++", "--x", "y = x++", "u = x", "$2 = x", "$2 += 1", "$i++", "$(i+1) = \"n\"", "$0 = \"p q r\"", "NF = 2", "NF++", "$NF = \"L\"", "a[k] = x", "a[k]++", "a[i,j] += 2", "delete a[k]", "delete a",
+	"if (NR == 1) $2 = \"x\"", "y = ($2 < 10) ($2 == 4.0) ($1 < 10)", "x = 1", "x += $1", "x++", "--x", "y = x++", "u = x", "$2 = x", "$2 += 1", "$i++", "$(i+1) = \"n\"", "$0 = \"p q r\"", "NF = 2", "NF++", "$NF = \"L\"", "a[k] = x", "a[k]++", "a[i,j] += 2", "delete a[k]", "delete a",
 	"i++", "k = \"new\"", "OFS = \"-\"", "$1 = $1", "sub(/b/, \"X\")", "gsub(/[0-9]/, \"#\", $2)", "split($0, a)", "x = length(a)", "y = ($1 < $2)", "if (x > 3) x = 0", "while (x < 6) x++", "for (m in a) n++",
 	"getline", "getline y", "getline $2 < \"pre\"", "getline < \"pre\"", "r = (k in a)", "y = substr($0, 2, 3)", "FS = \",\"", "$0 = $0", "NR = 7", "x = $(-1)", "u = $(NF+1)", "x = NF", "match($0, /[a-z]+/)", "y = RSTART", "CONVFMT = \"%.2g\"; y = 3.14159 \"\"", "print > \"out1\"", "close(\"out1\")", "next", "exit 2",
 }
